@@ -341,6 +341,9 @@ def gen_api():
         ("CExecBase", "PlatformSupport/ExecutionContext.hpp", "ExecutionContext"),
         ("CEngine", "XSLT/XSLTEngineImpl.hpp", "XSLTEngineImpl"),
         ("CTransformer", "XalanTransformer/XalanTransformer.hpp", "XalanTransformer"),
+        # owned sub-objects of the execution context whose reset() is part of the chain
+        ("CVarStack", "XSLT/VariablesStack.hpp", "VariablesStack"),
+        ("CCounters", "XSLT/CountersTable.hpp", "CountersTable"),
     ]
     mem = {}
     for tag, rel, cname in classes:
@@ -370,6 +373,25 @@ def gen_api():
     eng_reset, _ = reset_facts(
         function_body(eng, r"\bXSLTEngineImpl::reset\s*\(\s*\)\s*\{", "XSLTEngineImpl::reset"),
         "XSLTEngineImpl::reset", set())
+
+    # VariablesStack::reset(): "while (m_stack.empty() == false) pop();" empties m_stack and, because
+    # pop() decrements m_currentStackFrameIndex whenever it equals the size, brings that index to 0
+    vs = strip_comments(read("XSLT/VariablesStack.cpp"))
+    vs_body = function_body(vs, r"\bVariablesStack::reset\s*\(\s*\)\s*\{", "VariablesStack::reset")
+    loop_rx = r"while\s*\(\s*m_stack\.empty\(\)\s*==\s*false\s*\)\s*\{\s*pop\s*\(\s*\)\s*;\s*\}"
+    vs_loop = re.search(loop_rx, vs_body) is not None
+    vs_clears, _ = reset_facts(re.sub(loop_rx, " ", vs_body), "VariablesStack::reset", set())
+    if vs_loop:
+        pop_body = function_body(vs, r"\bVariablesStack::pop\s*\(\s*\)\s*\{", "VariablesStack::pop")
+        flat = re.sub(r"\s", "", pop_body)
+        if "if(m_currentStackFrameIndex==m_stack.size()){--m_currentStackFrameIndex;}" not in flat or "m_stack.pop_back();" not in flat:
+            raise AnchorError("VariablesStack::pop no longer keeps m_currentStackFrameIndex below the size while popping")
+        for m_ in ("m_stack", "m_currentStackFrameIndex"):
+            if m_ not in vs_clears:
+                vs_clears.append(m_)
+    ct = preprocess(strip_comments(read("XSLT/CountersTable.hpp")), "CountersTable.hpp")
+    ct_body = function_body(class_body(ct, "CountersTable", "CountersTable.hpp"), r"\breset\s*\(\s*\)\s*\{", "CountersTable::reset")
+    ct_clears, _ = reset_facts(ct_body, "CountersTable::reset", set())
 
     # XalanTransformer::reset(): setters on the context + the context's reset()
     tr_body = preprocess(function_body(xt, r"\bXalanTransformer::reset\s*\(\s*\)\s*\{", "XalanTransformer::reset"), "XalanTransformer::reset")
@@ -466,7 +488,7 @@ def gen_api():
     out = HEADER.replace("srcfacts.py", "gen_api.py")
     out += "From Coq Require Import List ZArith.\nRequire Import XV.ApiName.\nImport ListNotations.\nOpen Scope name_scope.\n\n"
     out += "Inductive mkind := KContainer | KObjStack | KCache | KPointer | KReference | KScalar | KAllocator | KString | KObject.\n"
-    out += "Inductive mclass := CSecd | CXpec | CXpecBase | CExecBase | CEngine | CTransformer.\n"
+    out += "Inductive mclass := CSecd | CXpec | CXpecBase | CExecBase | CEngine | CTransformer | CVarStack | CCounters.\n"
     out += "Inductive stmt := SGuard | STouchCtx | SPassRef | SOther.\n"
     out += "Inductive err_idiom := ErrClearPush | ErrResize1 | ErrNone.\n\n"
     out += "(* (a) data members *)\nDefinition members : list (mclass * name * mkind) := [\n"
@@ -485,6 +507,8 @@ def gen_api():
     out += "Definition xpec_reset_clears : list name := %s.\n" % coq_str_list(xpec_reset)
     out += "Definition xpec_reset_calls : list name := %s.\n" % coq_str_list(xpec_calls)
     out += "Definition engine_reset_clears : list name := %s.\n" % coq_str_list(eng_reset)
+    out += "Definition varstack_reset_clears : list name := %s.\n" % coq_str_list(vs_clears)
+    out += "Definition counters_reset_clears : list name := %s.\n" % coq_str_list(ct_clears)
     out += "Definition transformer_reset_nulls : list (mclass * name) := [%s].\n" % "; ".join('(%s, "%s")' % x for x in tr_nulls)
     out += "Definition transformer_reset_resets_context : bool := %s.\n" % ("true" if tr_resets_ctx else "false")
     out += "Definition ensure_reset_dtor_resets_context : bool := %s.\n" % ("true" if er_ctx else "false")
